@@ -268,6 +268,14 @@ func (c *Ctx) callMods(fn *ssa.Function, cc *ssa.CallCommon, m *ModSet) {
 		}
 		for _, a := range cc.Args {
 			c.funcArgMods(a, m)
+			// an interior address handed to the callee (&x.f, &s[i]): its writes
+			// land in the container
+			switch a.(type) {
+			case *ssa.FieldAddr, *ssa.IndexAddr:
+				if _, isPtr := a.Type().Underlying().(*types.Pointer); isPtr {
+					c.storeTarget(a, m)
+				}
+			}
 		}
 		return
 	}
